@@ -139,7 +139,7 @@ Definition r_groups : tabs -> GR.groups -> node -> N := chk_r pv_groups groups_e
 Definition r_kerning (t : tabs) : GR.kerning -> node -> N := chk_r (pv_kerning (T_to_bits t)) kerning_eqb t.
 
 (** ---------- fontinfo.plist: the schema-directed codec on norad's FontInfo schema ---------- *)
-Require Import Norad.Model.FontInfoFile Norad.Model.FontInfoSchema.
+Require Import Norad.Model.FontRealInfo Norad.Model.FontInfoFile Norad.Model.FontInfoSchema Norad.Model.FontInfoView.
 Fixpoint sval_eqb (a b : sval) : bool :=
   match a, b with
   | VStr s1, VStr s2 => str_eqb s1 s2
@@ -158,7 +158,18 @@ Fixpoint sval_eqb (a b : sval) : bool :=
   | _, _ => false
   end.
 (** 5 = the value handed over is not a value of the schema (the driver's conversion is off) *)
+(** 6 = the hand-written deserialisers' checks and [validate], run on the view of the value
+    ([FI.fi_load (raw_of_sval v)], Model/FontInfoView.v), refuse a file norad loaded *)
+Definition view_loads (v : sval) : bool :=
+  match FI.fi_load (raw_of_sval v) with Ok _ => true | _ => false end.
 Definition k_info (t : tabs) (v : sval) (n : node) : N :=
   if negb (wt font_info_schema v) then 5
-  else chk (write_s font_info_schema) (read_s font_info_schema) sval_eqb t v n.
-Definition r_info : tabs -> sval -> node -> N := chk_r (read_s font_info_schema) sval_eqb.
+  else match chk (write_s font_info_schema) (read_s font_info_schema) sval_eqb t v n with
+       | 0 => if view_loads v then 0 else 6
+       | c => c
+       end.
+Definition r_info (t : tabs) (v : sval) (n : node) : N :=
+  match chk_r (read_s font_info_schema) sval_eqb t v n with
+  | 0 => if view_loads v then 0 else 6
+  | c => c
+  end.
